@@ -34,6 +34,9 @@ REQUIRED_THEOREMS = [
     "prepare_program_bridge", "prepare_follows_source_structure", "prepare_program_order", "is_valid_bridge",
     "hard_edges_guard_bridge", "corner_append_bridge", "corner_generation_uses_append_order", "dimensionality_bridge",
     "instantiate_follows_source_structure", "class_table_bridge", "mesh_init_bridge", "rewrap_follows_mesh_init",
+    # round 3: histories on one object, regeneration criteria
+    "face_corner_guard_bridge", "cell_corner_guard_bridge", "cell_faces_always_rebuilt_bridge",
+    "stale_corner_records_are_rebuilt", "corner_records_after_append", "second_mesh_on_same_data",
     # round 2: row container types
     "prepare_commutes_with_forgetting_row_type", "prepare_depends_on_row_values_only", "prepared_rows_are_lists_or_tuples",
 ]
@@ -65,7 +68,12 @@ RULE = ("raw scenarios (points, polylines, manifold polygon surfaces, tet meshes
         ".obj/.mesh file written by the harness and read by mouette.mesh.load} x "
         "completion switches x {once, constructor twice, prepare again, RawMeshData(mesh) re-wrap (same class / "
         "instanciate)} x {instanciate with dim None/0..3, direct class}; every raw scenario is built from list, tuple AND numpy "
-        "rows and all three must match the one model reply, incl. the container type of every stored row; every container, attribute, corner record and the "
+        "rows and all three must match the one model reply, incl. the container type of every stored row; numeric "
+        "representation varied per scenario (python ints / numpy scalars / int32,int64,uint8,uint32,uint64 rows; float64, float32, "
+        "integer vertices; C/Fortran-ordered and read-only arrays; shared row objects) against the same exact-valued model "
+        "request; histories on one object: the same raw data wrapped by a second mesh class, elements appended to the built "
+        "mesh then built again from it (other switches), save -> load through .obj/.mesh; the mesh built first is re-read by "
+        "value after every second construction; every container, attribute, corner record and the "
         "class are compared with the Lean model; non-trivial = distinct scenario whose construction succeeds and holds at "
         "least one face, cell or declared edge")
 
@@ -79,25 +87,78 @@ def _uniform(rows):
     return len({len(r) for r in rows}) <= 1
 
 
+IDX_REPS = ["py", "py", "py", "py", "npscalar", "int32", "int64", "uint8", "uint32", "uint64"]
+
+
+def _rep(case, name, default):
+    return (case.get("rep") or {}).get(name, default)
+
+
 def _finish(rng, sc):
     c = dict(sc)
     c["ce"] = rng.random() < .8
     c["cf"] = rng.random() < .85
     ct = rng.choice(["list", "tuple", "numpy", "numpy"])
     via = "raw"
-    if ct == "numpy" and _uniform(c["F"]) and _uniform(c["C"]) and c["V"] and rng.random() < .5:
+    if ct == "numpy" and _uniform(c["F"]) and _uniform(c["C"]) and rng.random() < .5:
         via = "arrays"
     if via == "raw" and ct == "list" and _file_format(c) and c["V"] and rng.random() < .5 \
             and not (c["vdim"] == 2 and _file_format(c) == "mesh"):
         via = "file"
     c["ctype"], c["via"] = ct, via
-    c["build"] = rng.choice(["once", "once", "once", "twice", "reprep", "rewrap", "rewrap", "rewrapinst"])
+    c["build"] = rng.choice(["once", "once", "once", "twice", "reprep", "rewrap", "rewrap", "rewrapinst",
+                             "two", "append", "append", "saveload"])
     r = rng.random()
     if r < .55: c["how"] = "inst:N"
     elif r < .75: c["how"] = "inst:%d" % rng.randint(0, 3)
     else:
         top = 3 if c["C"] else 2 if c["F"] else 1 if c["E"] else 0
         c["how"] = "direct:%d" % rng.choice([top, top, top, rng.randint(0, 3)])
+    # ---- histories on one object
+    if c["build"] == "two":
+        c["build"] = "two:%d" % rng.randint(0, 3)             # the same RawMeshData wrapped by a second mesh class
+    elif c["build"] == "append":
+        n = len(c["V"])
+        nv = [[float(rng.randint(-3, 3)), float(rng.randint(-3, 3)), float(rng.randint(-3, 3))][:c["vdim"]]] if rng.random() < .7 else []
+        m = n + len(nv)
+        app = {"V": nv, "E": [], "F": [], "C": []}
+        if m >= 2:
+            for _ in range(rng.choice([0, 1, 1, 2])):
+                a, b = rng.sample(range(m), 2); app["E"].append([a, b])
+            if rng.random() < .2: app["E"].append([m - 1, m - 1])
+            if rng.random() < .15: app["E"].append([0, m + 1])
+        if m >= 3 and rng.random() < .7:
+            f = rng.sample(range(m), 3)
+            if nv: f[0] = m - 1
+            if len(set(f)) == 3: app["F"].append(f)
+        if m >= 4 and rng.random() < .6:
+            cc = rng.sample(range(m), 4)
+            if nv and (m - 1) not in cc: cc[0] = m - 1
+            app["C"].append(cc)
+        c["app"] = app
+        c["cfg2"] = {"ce": c["ce"] if rng.random() < .7 else not c["ce"], "cf": c["cf"] if rng.random() < .7 else not c["cf"]}
+    elif c["build"] == "saveload":
+        fmt = "obj" if not c["C"] else ("mesh" if all(len(x) == 4 for x in c["C"]) and all(len(f) == 3 for f in c["F"]) else None)
+        if fmt == "mesh" and c["how"].startswith("direct") and c["how"] != "direct:3": fmt = None
+        c["build"] = ("saveload:" + fmt) if fmt else "rewrap"
+    # ---- a `hard_edges` attribute brought by the caller (then prepare must leave the flags to the caller)
+    if c["E"] and (c["F"] or c["C"]) and not c["build"].startswith("saveload") and rng.random() < .07 \
+            and not any(a["name"] == "hard_edges" for a in c["EA"]):
+        c["EA"] = c["EA"] + [{"name": "hard_edges", "dense": False, "dflt": None,
+                              "vals": {str(i): 1 for i in range(len(c["E"])) if rng.random() < .5}}]
+    # ---- numeric representation of rows and coordinates
+    allidx = [x for fld in ("E", "F", "C") for row in c[fld] for x in row] + \
+             [x for fld in ("E", "F", "C") for row in (c.get("app") or {}).get(fld, []) for x in row]
+    idx = rng.choice(IDX_REPS)
+    if idx.startswith("uint") and any(x < 0 for x in allidx): idx = "int32"
+    if idx == "uint8" and (max(allidx + [0]) > 250 or len(c["V"]) > 250): idx = "uint32"
+    vert = rng.choice(["f64", "f64", "f64", "f32", "int", "int"])
+    if vert == "int":
+        c["V"] = [[float(round(x)) for x in v] for v in c["V"]]
+        vert = rng.choice(["pyint", "i32", "i64"])
+    c["rep"] = {"idx": idx, "vert": vert, "order": rng.choice(["C", "C", "F"]), "ro": rng.random() < .25,
+                "alias": rng.random() < .1, "api": rng.random() < .5}
+    if via == "file": c["rep"]["idx"], c["rep"]["vert"] = "py", "f64"
     return c
 
 
@@ -128,8 +189,35 @@ HAND = [
 ]
 
 
+_V5 = [[0., 0., 0.], [1., 0., 0.], [0., 1., 0.], [0., 0., 1.], [1., 1., 1.]]
+HAND3 = [
+    # round 3: histories / representations (also in corpus/C02/round3_families.json)
+    {"kind": "hand-append-cell", "V": _V5[:4], "vdim": 3, "E": [], "EA": [], "F": [], "C": [[0, 1, 2, 3]], "ce": True, "cf": True,
+     "ctype": "list", "via": "raw", "build": "append", "how": "direct:3",
+     "app": {"V": [[1., 1., 1.]], "E": [], "F": [], "C": [[1, 2, 3, 4]]}, "cfg2": {"ce": True, "cf": True}},
+    {"kind": "hand-append-face-edge", "V": _V5[:4], "vdim": 3, "E": [[1, 0]], "EA": [{"name": "w", "dense": True, "dflt": 7, "vals": {"0": 5}}],
+     "F": [[0, 1, 2]], "C": [], "ce": True, "cf": True, "ctype": "tuple", "via": "raw", "build": "append", "how": "inst:N",
+     "app": {"V": [], "E": [[3, 0], [2, 2]], "F": [[1, 3, 2]], "C": []}, "cfg2": {"ce": True, "cf": True}},
+    {"kind": "hand-two-classes", "V": _V5, "vdim": 3, "E": [[4, 0]], "EA": [], "F": [], "C": [[0, 1, 2, 3], [1, 2, 3, 4]], "ce": True, "cf": True,
+     "ctype": "list", "via": "raw", "build": "two:3", "how": "direct:2"},
+    {"kind": "hand-saveload-obj", "V": _V5[:4], "vdim": 3, "E": [[3, 0], [1, 1]], "EA": [], "F": [[0, 1, 2], [0, 2, 3]], "C": [], "ce": True, "cf": True,
+     "ctype": "list", "via": "raw", "build": "saveload:obj", "how": "inst:N"},
+    {"kind": "hand-saveload-mesh", "V": _V5, "vdim": 3, "E": [[4, 0]], "EA": [], "F": [], "C": [[0, 1, 2, 3], [1, 2, 3, 4]], "ce": True, "cf": True,
+     "ctype": "tuple", "via": "raw", "build": "saveload:mesh", "how": "inst:N"},
+    {"kind": "hand-uint8-int-vertices", "V": [[0., 0.], [2., 0.], [0., 3.], [2., 3.]], "vdim": 2, "E": [[3, 0], [1, 1]], "EA": [],
+     "F": [[0, 1, 2], [1, 3, 2]], "C": [], "ce": True, "cf": True, "ctype": "numpy", "via": "arrays", "build": "once", "how": "inst:N",
+     "rep": {"idx": "uint8", "vert": "i32", "order": "F", "ro": True, "alias": False, "api": True}},
+    {"kind": "hand-npscalar-float32", "V": _V5, "vdim": 3, "E": [[4, 0], [2, 2]], "EA": [{"name": "s", "dense": False, "dflt": None, "vals": {"0": 9}}],
+     "F": [], "C": [[0, 1, 2, 3], [1, 2, 3, 4]], "ce": True, "cf": True, "ctype": "list", "via": "raw", "build": "rewrap", "how": "inst:N",
+     "rep": {"idx": "npscalar", "vert": "f32", "order": "C", "ro": False, "alias": True, "api": False}},
+    {"kind": "hand-user-hard", "V": _V5[:4], "vdim": 3, "E": [[0, 1], [2, 2], [3, 0]],
+     "EA": [{"name": "hard_edges", "dense": False, "dflt": None, "vals": {"2": 1}}], "F": [[0, 1, 2]], "C": [], "ce": True, "cf": True,
+     "ctype": "list", "via": "raw", "build": "rewrap", "how": "inst:N"},
+]
+
+
 def cases(rng, tier):
-    n = 2600 if tier == "quick" else 24000
+    n = 2200 if tier == "quick" else 16000
     for h in HAND:
         yield dict(h)
     for _ in range(n):
@@ -154,18 +242,50 @@ def _err(e):
             "OutOfBoundsError": "err:OutOfBounds", "InvalidSizeError": "err:Size"}.get(n, f"err:Other({n})")
 
 
-def _rows(rows, ct):
-    import numpy as np
-    if ct == "list": return [list(r) for r in rows]
-    if ct == "tuple": return [tuple(r) for r in rows]
-    return [np.array(r, dtype=np.int64) for r in rows]
+_NP = {"int32": "int32", "int64": "int64", "uint8": "uint8", "uint32": "uint32", "uint64": "uint64", "npscalar": "int64"}
 
 
-def _vrows(rows, ct):
+def _rows(rows, ct, case=None):
+    """index rows in the container type `ct` and the numeric representation of the case (python ints, numpy scalars
+    of a given dtype inside lists/tuples, numpy rows of a given dtype); `alias`: equal rows are ONE shared object"""
     import numpy as np
-    if ct == "list": return [list(r) for r in rows]
-    if ct == "tuple": return [tuple(r) for r in rows]
-    return [np.array(r, dtype=float) for r in rows]
+    idx = _rep(case or {}, "idx", "py")
+    sc = (lambda x: int(x)) if idx == "py" else (lambda x: getattr(np, _NP[idx])(x))
+    memo = {}
+    out = []
+    for r in rows:
+        if ct == "list": row = [sc(x) for x in r]
+        elif ct == "tuple": row = tuple(sc(x) for x in r)
+        else: row = np.array(r, dtype=getattr(np, _NP.get(idx, "int64")))
+        if _rep(case or {}, "alias", False):
+            row = memo.setdefault(tuple(r), row)
+        out.append(row)
+    return out
+
+
+def _vrows(rows, ct, case=None):
+    import numpy as np
+    vert = _rep(case or {}, "vert", "f64")
+    if vert in ("pyint", "i32", "i64"):
+        dt = {"pyint": None, "i32": np.int32, "i64": np.int64}[vert]
+        sc = (lambda x: int(x)) if dt is None else (lambda x: dt(int(x)))
+    elif vert == "f32":
+        dt, sc = np.float32, (lambda x: np.float32(x))
+    else:
+        dt, sc = float, (lambda x: float(x))
+    if ct == "list": return [[sc(x) for x in r] for r in rows]
+    if ct == "tuple": return [tuple(sc(x) for x in r) for r in rows]
+    return [np.array(r, dtype=(np.int64 if dt is None else dt)) for r in rows]
+
+
+def _arr(rows, dtype, case, width=None):
+    """2-D array for from_arrays: dtype, memory order and writability of the representation"""
+    import numpy as np
+    a = np.array(rows, dtype=dtype)
+    if width is not None: a = a.reshape(len(rows), width)
+    if _rep(case, "order", "C") == "F": a = np.asfortranarray(a)
+    if _rep(case, "ro", False): a.setflags(write=False)
+    return a
 
 
 def _file_format(case):
@@ -184,7 +304,7 @@ def _file_edges(case):
     return [list(e) for e in case["E"]]
 
 
-def _load_from_file(case):
+def _load_from_file(case, dim=None, raw=True):
     import tempfile
     import mouette as M
     fmt = _file_format(case)
@@ -213,7 +333,7 @@ def _load_from_file(case):
                 f.write("Tetrahedra\n%d\n" % len(case["C"]))
                 for c in case["C"]: f.write(" ".join(str(x + 1) for x in c) + " 0\n")
                 f.write("End\n")
-        return M.mesh.load(path, raw=True)
+        return M.mesh.load(path, raw=True) if raw else M.mesh.load(path, dim)
 
 
 def _make_raw(case, ct, via):
@@ -223,22 +343,54 @@ def _make_raw(case, ct, via):
     if via == "file":
         d = _load_from_file(case)
     elif via == "arrays":
-        V = np.array(case["V"], dtype=float).reshape(len(case["V"]), case["vdim"])
-        E = np.array(case["E"], dtype=np.int64) if case["E"] else None
-        F = np.array(case["F"], dtype=np.int64) if case["F"] else None
-        C = np.array(case["C"], dtype=np.int64) if case["C"] else None
+        idt = getattr(np, _NP.get(_rep(case, "idx", "py"), "int64"))
+        vdt = {"f32": np.float32, "pyint": np.int64, "i32": np.int32, "i64": np.int64}.get(_rep(case, "vert", "f64"), float)
+        V = _arr(case["V"], vdt, case, case["vdim"])
+        E = _arr(case["E"], idt, case) if case["E"] else None
+        F = _arr(case["F"], idt, case) if case["F"] else None
+        C = _arr(case["C"], idt, case) if case["C"] else None
         d = M.mesh.from_arrays(V, E, F, C, raw=True)
     else:
         d = RawMeshData()
-        d.vertices += _vrows(case["V"], ct)
-        d.edges += _rows(case["E"], ct)
-        d.faces += _rows(case["F"], ct)
-        d.cells += _rows(case["C"], ct)
+        d.vertices += _vrows(case["V"], ct, case)
+        d.edges += _rows(case["E"], ct, case)
+        d.faces += _rows(case["F"], ct, case)
+        d.cells += _rows(case["C"], ct, case)
+    npval = _rep(case, "idx", "py") != "py"
     for a in case["EA"]:
         at = d.edges.create_attribute(a["name"], int, dense=a["dense"], default_value=a["dflt"])
         for k, v in sorted(a["vals"].items(), key=lambda kv: int(kv[0])):
-            at[int(k)] = int(v)
+            at[int(k)] = np.int64(v) if npval else int(v)
     return d
+
+
+def _api_entry(case, ct, via):
+    """when nothing has to be attached to the raw data, go through the public entry point itself
+    (from_arrays(...) / load(path, dim) build the mesh in one call)"""
+    return (_rep(case, "api", False) and not case["EA"] and case["how"].startswith("inst") and via in ("arrays", "file")
+            and (case["build"] in ("once", "rewrap", "rewrapinst", "append") or case["build"].startswith("saveload")))
+
+
+def _build_first(case, ct, via):
+    import numpy as np
+    import mouette as M
+    if not _api_entry(case, ct, via):
+        d = _make_raw(case, ct, via)
+        return d, _construct(d, case["how"])
+    k = case["how"].split(":")[1]
+    dim = None if k == "N" else int(k)
+    if via == "arrays" and dim is None:
+        idt = getattr(np, _NP.get(_rep(case, "idx", "py"), "int64"))
+        vdt = {"f32": np.float32, "pyint": np.int64, "i32": np.int32, "i64": np.int64}.get(_rep(case, "vert", "f64"), float)
+        m = M.mesh.from_arrays(_arr(case["V"], vdt, case, case["vdim"]),
+                               _arr(case["E"], idt, case) if case["E"] else None,
+                               _arr(case["F"], idt, case) if case["F"] else None,
+                               _arr(case["C"], idt, case) if case["C"] else None)
+        return None, m
+    if via == "file":
+        return None, _load_from_file(case, dim=dim, raw=False)
+    d = _make_raw(case, ct, via)
+    return d, _construct(d, case["how"])
 
 
 def _construct(d, how):
@@ -340,12 +492,11 @@ def _run(case, ct=None, via=None):
     from mouette.mesh import mesh as mm
     cfg = M.config
     old = (cfg.complete_edges_from_faces, cfg.complete_faces_from_cells)
-    res = {"err": None, "stage": None, "first": None, "final": None, "mesh": None}
+    res = {"err": None, "stage": None, "first": None, "final": None, "mesh": None, "first_after": None}
     try:
         cfg.complete_edges_from_faces, cfg.complete_faces_from_cells = bool(case["ce"]), bool(case["cf"])
         try:
-            d = _make_raw(case, ct, via)
-            m1 = _construct(d, case["how"])
+            d, m1 = _build_first(case, ct, via)
             res["first"] = _snap(m1)
         except Exception as e:  # noqa
             res["err"], res["stage"] = _err(e), "first"
@@ -357,8 +508,33 @@ def _run(case, ct=None, via=None):
                 elif b == "reprep":
                     d.prepare(); m2 = m1
                 elif b == "rewrap": m2 = type(m1)(RawMeshData(m1))
-                else: m2 = mm._instanciate_raw_mesh_data(RawMeshData(m1), CLASSES.index(type(m1).__name__))
+                elif b == "rewrapinst": m2 = mm._instanciate_raw_mesh_data(RawMeshData(m1), CLASSES.index(type(m1).__name__))
+                elif b.startswith("two:"):
+                    # the same raw data wrapped by a second mesh (of another class)
+                    m2 = getattr(M.mesh, CLASSES[int(b[4:])])(d)
+                elif b == "append":
+                    # elements appended through the container API to the built mesh, then built again from it
+                    app = case["app"]
+                    for v in _vrows(app["V"], ct, case): m1.vertices.append(v)
+                    if hasattr(m1, "edges"):
+                        for e in _rows(app["E"], ct, case): m1.edges.append(e)
+                    if hasattr(m1, "faces"):
+                        for f in _rows(app["F"], ct, case): m1.faces.append(f)
+                    if hasattr(m1, "cells"):
+                        for c in _rows(app["C"], ct, case): m1.cells.append(c)
+                    res["appended"] = _snap(m1)
+                    cfg.complete_edges_from_faces, cfg.complete_faces_from_cells = bool(case["cfg2"]["ce"]), bool(case["cfg2"]["cf"])
+                    m2 = type(m1)(RawMeshData(m1))
+                elif b.startswith("saveload:"):
+                    import tempfile
+                    with tempfile.TemporaryDirectory() as td:
+                        path = os.path.join(td, "m." + b.split(":")[1])
+                        M.mesh.save(m1, path)
+                        m2 = M.mesh.load(path)
+                else:
+                    raise ValueError("unknown build " + b)
                 res["final"] = _snap(m2); res["mesh"] = m2
+                res["first_after"] = _snap(m1)
             except Exception as e:  # noqa
                 res["err"], res["stage"] = _err(e), "again"
     finally:
@@ -416,6 +592,18 @@ def model_request(case):
         t += [tag, str(len(case[tag]))]
         for r in case[tag]:
             t += [str(len(r))] + [str(x) for x in r]
+    if case["build"] == "append":
+        app, c2 = case["app"], case["cfg2"]
+        t += ["P", "1" if c2["ce"] else "0", "1" if c2["cf"] else "0", "V", str(len(app["V"]))]
+        for v in app["V"]:
+            t += [str(len(v))] + [G.frac(x) for x in v]
+        t += ["E", str(len(app["E"]))]
+        for a, b in app["E"]:
+            t += [str(a), str(b)]
+        for tag in ("F", "C"):
+            t += [tag, str(len(app[tag]))]
+            for r in app[tag]:
+                t += [str(len(r))] + [str(x) for x in r]
     return " ".join(t)
 
 
@@ -534,34 +722,49 @@ def _ctx(case):
     return case["via"] if case["via"] in ("arrays", "file") else case["ctype"]
 
 
-def oracle(case):
-    out = []
+def _inp_of_case(case):
+    """the raw input of a construction, as the oracle needs it"""
+    def attr(a):
+        d0 = a["dflt"] if a["dflt"] is not None else 0
+        return {"name": a["name"], "dense": a["dense"], "has": (lambda i, a=a: str(i) in a["vals"]),
+                "ref": (lambda i, a=a, d0=d0: a["vals"].get(str(i), d0))}
+    return {"V": [[Fraction(x) for x in v] for v in case["V"]], "E": [list(e) for e in case["E"]],
+            "F": [list(f) for f in case["F"]], "C": [list(c) for c in case["C"]], "EA": [attr(a) for a in case["EA"]],
+            "ce": case["ce"], "cf": case["cf"], "tag": case["build"].split(":")[0], "via": case["via"]}
 
-    def add(key, what, detail=""):
-        if not any(f["key"] == key for f in out):
-            out.append({"key": key, "what": what, "detail": str(detail)[:400]})
-    nV = len(case["V"])
-    E, F, C = case["E"], case["F"], case["C"]
+
+def _inp_after_append(case, appended, first):
+    """the raw input of the SECOND construction of an `append` history: the containers of the built mesh as the caller
+    left them (its own edges, faces, cells, attributes + what was appended)"""
+    def attr(rec):
+        name, st, dv, data = rec
+        if st == "d":
+            return {"name": name, "dense": True, "has": (lambda i: True), "ref": (lambda i, data=data, dv=dv: data[i] if i < len(data) else dv)}
+        dd = dict(map(tuple, data))
+        return {"name": name, "dense": False, "has": (lambda i, dd=dd: i in dd), "ref": (lambda i, dd=dd, dv=dv: dd.get(i, dv))}
+    s = appended
+    return {"V": [list(v) for v in s["V"]], "E": [list(e) for e in s.get("E", [])], "F": [list(f) for f in s.get("F", [])],
+            "C": [list(c) for c in s.get("C", [])], "EA": [attr(a) for a in s.get("A", [])],
+            "ce": case["cfg2"]["ce"], "cf": case["cfg2"]["cf"], "tag": "append", "via": case["via"]}
+
+
+def _clauses(inp, s, add):
+    """the clauses of the statement about ONE finished object `s` (snapshot) built from the raw input `inp`.
+    Returns (expected edge multiset, expected faces) for the class clause."""
+    nV = len(inp["V"])
+    E, F, C, tag = inp["E"], inp["F"], inp["C"], inp["tag"]
     valid = lambda e: e[0] != e[1] and 0 <= e[0] < nV and 0 <= e[1] < nV
-    r = _run(case)
-    # ---- construction must succeed (documented rejection: from_arrays refuses indices >= nV)
-    if r["err"]:
-        if case["via"] == "arrays" and r["err"] == "err:Other(Exception)" and any(max(e) >= nV for e in E):
-            return out
-        add(f"C02/raises/{r['stage']}/{r['err']}/{_ctx(case)}", f"construction ({r['stage']} build, {case['build']}) raised {r['err']} on a valid raw input", r["err"])
-        return out
-    s = r["final"]
     dimc = CLASSES.index(s["cls"])
     # ---- 3-D vertices
     if any(len(v) != 3 for v in s["V"]):
-        add(f"C02/vertices/not-3d/{case['via']}", "finished mesh holds vertices that are not 3-D", [len(v) for v in s["V"]][:5])
-    if [list(v)[:case["vdim"]] for v in s["V"]] != [[Fraction(x) for x in v] for v in case["V"]]:
-        add("C02/vertices/changed", "vertex coordinates changed by construction")
+        add(f"C02/vertices/not-3d/{inp['via']}", "finished mesh holds vertices that are not 3-D", [len(v) for v in s["V"]][:5])
+    if len(s["V"]) != nV or any(list(v)[:len(w)] != list(w) or any(x != 0 for x in list(v)[len(w):]) for v, w in zip(s["V"], inp["V"])):
+        add("C02/vertices/changed", "vertex coordinates changed by construction (given coordinates kept, missing ones are 0)")
     # ---- expected faces (multiset of vertex sets)
     decl_fk = [_key(f) for f in F]
     cellf = [fs for c in C for fs in R.cell_face_sets(c)]
     exp_f = Counter(decl_fk)
-    if case["cf"] and C:
+    if inp["cf"] and C:
         for fs in cellf:
             if _key(fs) not in exp_f: exp_f[_key(fs)] = 1
     if dimc >= 2:
@@ -573,7 +776,6 @@ def oracle(case):
         for f in s["F"][len(F):]:
             if len(f) == 4 and not any(_cyc_eq(f, q) for c in C if len(c) == 8 for q in R.cell_face_sets(c)):
                 add("C02/faces/hex-quad-order", "a completed quad is not one of the six quads of its hexahedron", f)
-        # corner records
         if s["FC"][0] != [v for f in s["F"] for v in f]:
             add("C02/face-corners/elem", "face corner elements are not the face vertices in element order")
         if s["FC"][1] != [i for i, f in enumerate(s["F"]) for _ in f]:
@@ -583,9 +785,8 @@ def oracle(case):
     surv = [i for i, e in enumerate(E) if valid(e)]
     decl_valid = [_key(E[i]) for i in surv]
     exp_e = Counter(decl_valid)
-    if case["ce"] and faces_final:
-        # stored faces: declared ones as declared; completed cell faces (vertex set not declared) in their cyclic order
-        all_faces = [list(f) for f in F] + ([fs for fs in cellf if _key(fs) not in set(decl_fk)] if (case["cf"] and C) else [])
+    if inp["ce"] and faces_final:
+        all_faces = [list(f) for f in F] + ([fs for fs in cellf if _key(fs) not in set(decl_fk)] if (inp["cf"] and C) else [])
         for f in all_faces:
             for i in range(len(f)):
                 k = _key((f[i], f[(i + 1) % len(f)]))
@@ -606,53 +807,52 @@ def oracle(case):
             add("C02/edges/declared-order", "surviving declared edges do not come first in declaration order")
         # ---- attributes follow their edges
         names = {a[0]: a for a in s["A"]}
-        for a in case["EA"]:
+        for a in inp["EA"]:
             kind = "dense" if a["dense"] else "sparse"
             if a["name"] not in names:
                 add(f"C02/edge-attr/{kind}/missing", "edge attribute disappeared during construction", a["name"]); continue
             _, st, dv, data = names[a["name"]]
-            d0 = a["dflt"] if a["dflt"] is not None else 0
-            ref = lambda i: a["vals"].get(str(i), d0)
-            rd = (lambda k: (data[k] if k < len(data) else None)) if st == "d" else (lambda k: dict(map(tuple, data)).get(k, dv))
+            dd = dict(map(tuple, data)) if st == "s" else None
+            rd = (lambda k: (data[k] if k < len(data) else None)) if st == "d" else (lambda k: dd.get(k, dv))
             if prefix_ok:
                 for k, i in enumerate(surv):
-                    if rd(k) != ref(i):
-                        why = "default" if (str(i) not in a["vals"]) else "value"
+                    if rd(k) != a["ref"](i):
+                        why = "default" if not a["has"](i) else "value"
                         add(f"C02/edge-attr/{kind}/{why}-lost" + ("/filtered" if len(surv) < len(E) else ""),
                             f"surviving edge does not read its {why} after construction ({kind} attribute)",
-                            f"attr {a['name']}: declared edge {i} -> edge {k}: {rd(k)} != {ref(i)}")
+                            f"attr {a['name']}: declared edge {i} -> edge {k}: {rd(k)} != {a['ref'](i)}")
                         break
                 if st == "s" and not a["dense"]:
-                    expk = {k for k, i in enumerate(surv) if str(i) in a["vals"]}
-                    gotk = {k for k, _ in data}
+                    expk = {k for k, i in enumerate(surv) if a["has"](i)}
+                    gotk = set(dd)
                     if gotk != expk:
                         add("C02/edge-attr/sparse/keys", "sparse key set does not follow the surviving edges (absent stays absent, dropped edges drop their values)",
-                            f"{sorted(gotk)} != {sorted(expk)}")
+                            f"{a['name']}: {sorted(gotk)} != {sorted(expk)}")
             if st == "d" and len(data) != len(s["E"]):
                 add("C02/edge-attr/dense/size", "dense attribute size differs from the number of edges", f"{len(data)} vs {len(s['E'])}")
-        # ---- hard edges
-        if "hard_edges" in names and not any(a["name"] == "hard_edges" for a in case["EA"]):
+        # ---- hard edges (when the caller brought the attribute it follows its edges like any other, checked above)
+        if "hard_edges" in names and not any(a["name"] == "hard_edges" for a in inp["EA"]):
             hk = sorted(k for k, v in names["hard_edges"][3] if v) if names["hard_edges"][1] == "s" else \
                 [k for k, v in enumerate(names["hard_edges"][3]) if v]
             und = [k for k in hk if k >= len(surv)]
             if und:
-                add(f"C02/hard-edges/undeclared-flagged/{case['build']}", "an edge the caller did not declare is flagged as hard edge",
+                add(f"C02/hard-edges/undeclared-flagged/{tag}", "an edge the caller did not declare is flagged as hard edge",
                     f"flagged {hk}, declared survivors 0..{len(surv) - 1}")
     # ---- cells
     if dimc >= 3:
         if s["C"] != [list(c) for c in C]:
             add("C02/cells/changed", "cells changed by construction")
         if s["CC"][0] != [v for c in C for v in c]:
-            add("C02/cell-corners/elem", "cell corner elements are not the cell vertices in element order")
+            add("C02/cell-corners/elem" + ("/stale" if tag == "append" else ""), "cell corner elements are not the cell vertices in element order",
+                f"{len(s['CC'][0])} records for {sum(len(c) for c in C)} cell vertices")
         if s["CC"][1] != [i for i, c in enumerate(C) for _ in c]:
-            add("C02/cell-corners/owner", "cell corner owners are not the cells in element order", s["CC"][1][:12])
-        # one record per cell-face incidence: an incidence is a face of the cell (4 triangles / 6 quads) that is stored
+            add("C02/cell-corners/owner" + ("/stale" if tag == "append" else ""), "cell corner owners are not the cells in element order", s["CC"][1][:12])
         stored = {_key(f) for f in s["F"]}
         present = [[_key(fs) for fs in R.cell_face_sets(c) if _key(fs) in stored] for c in C]
         per = [len(pr) for pr in present]
         el, ow = s["CF"]
         if len(el) != sum(per):
-            add("C02/cell-faces/count", "not one cell-face record per cell-face incidence", f"{len(el)} vs {sum(per)}")
+            add("C02/cell-faces/count" + ("/stale" if tag == "append" else ""), "not one cell-face record per cell-face incidence", f"{len(el)} vs {sum(per)}")
         else:
             p = 0
             for ic, c in enumerate(C):
@@ -663,34 +863,95 @@ def oracle(case):
                 p += per[ic]
         if ow != [i for i, n in enumerate(per) for _ in range(n)]:
             add("C02/cell-faces/owner" + ("/empty" if not ow else ""), "cell-face records do not record their owner cell", f"owners {ow[:12]} for {len(el)} records")
-        if case["cf"] and any(len(pr) != (4 if len(c) == 4 else 6) for pr, c in zip(present, C)):
+        if inp["cf"] and any(len(pr) != (4 if len(c) == 4 else 6) for pr, c in zip(present, C)):
             add("C02/cell-faces/incomplete", "with face completion on a cell does not have 4 (tetrahedron) / 6 (hexahedron) cell-face records")
+    return exp_e, faces_final
+
+
+def oracle(case):
+    out = []
+
+    def add(key, what, detail=""):
+        if not any(f["key"] == key for f in out):
+            out.append({"key": key, "what": what, "detail": str(detail)[:400]})
+    nV = len(case["V"])
+    E, C = case["E"], case["C"]
+    build = case["build"]
+    btag = build.split(":")[0]
+    r = _run(case)
+    # ---- construction must succeed (documented rejection: from_arrays refuses indices >= nV)
+    if r["err"]:
+        if case["via"] == "arrays" and r["err"] == "err:Other(Exception)" and any(max(e) >= nV for e in E):
+            return out
+        add(f"C02/raises/{r['stage']}/{r['err']}/{_ctx(case)}" + ("" if btag in ("once", "twice", "reprep", "rewrap", "rewrapinst") else "/" + btag),
+            f"construction ({r['stage']} build, {build}) raised {r['err']} on a valid raw input", r["err"])
+        return out
+    s = r["final"]
+    inp = _inp_of_case(case)
+    if btag == "append":
+        # both constructions must yield a finished object: the first from the raw input, the second from the containers
+        # of the built mesh as the caller left them
+        exp_e, faces_final = _clauses(inp, r["first"], add)
+        _clauses(_inp_after_append(case, r["appended"], r["first"]), s, add)
+        if s["cls"] != r["first"]["cls"]:
+            add("C02/class/append", "re-building a mesh of class X from itself gives another class", f"{r['first']['cls']} -> {s['cls']}")
+    elif btag == "saveload":
+        exp_e, faces_final = _clauses(inp, r["first"], add)
+        f0 = r["first"]
+        fmt = build.split(":")[1]
+        if s["V"] != f0["V"]:
+            add(f"C02/saveload/{fmt}/V", "vertices differ after save -> load")
+        for sec in ("E", "F", "FC", "C", "CC", "CF"):
+            a, b = f0.get(sec), s.get(sec)
+            if sec == "E" and a is not None and b is not None:
+                a, b = sorted(map(tuple, a)), sorted(map(tuple, b))
+            if (a is not None and b is not None and a != b) or (b is None and a and any(a)):
+                add(f"C02/saveload/{fmt}/{sec}", f"section {sec} of the mesh differs after save -> load -> prepare (building again through a file)",
+                    f"{str(a)[:150]} -> {str(b)[:150]}")
+        hard = lambda sn: sorted(tuple(sn["E"][k]) for a in sn.get("A", []) if a[0] == "hard_edges" for k, v in a[3] if v and k < len(sn["E"])) if "E" in sn else []
+        if "E" in s and "E" in f0 and any(a[0] == "hard_edges" for a in s["A"]) and not set(hard(s)) <= (set(hard(f0)) if any(a[0] == "hard_edges" for a in f0["A"]) else set(map(tuple, f0["E"]))):
+            add(f"C02/saveload/{fmt}/hard-edges", "after save -> load an edge is flagged hard that was not flagged before", f"{hard(f0)} -> {hard(s)}")
+        if case["how"] == "inst:N" and s["cls"] != f0["cls"]:
+            add(f"C02/saveload/{fmt}/cls", "class differs after save -> load", f"{f0['cls']} -> {s['cls']}")
+    else:
+        exp_e, faces_final = _clauses(inp, s, add)
     # ---- class
     kind, k = case["how"].split(":")
     if kind == "inst":
-        have_e = bool(exp_e)
-        top = 3 if C else 2 if faces_final else 1 if have_e else 0
+        top = 3 if C else 2 if faces_final else 1 if exp_e else 0
         want = max(top, -1 if k == "N" else int(k))
         if CLASSES.index(r["first"]["cls"]) != want:
             add(f"C02/class/{r['first']['cls']}-for-dim{want}", "class does not match the highest-dimensional element present", f"{r['first']['cls']} vs {CLASSES[want]}")
     # ---- building again changes nothing
-    if case["build"] != "once":
+    if btag in ("twice", "reprep", "rewrap", "rewrapinst", "two"):
         f0, f1 = r["first"], r["final"]
-        for sec in ("cls", "V", "E", "A", "F", "FC", "C", "CC", "CF"):
+        secs = ("cls", "V", "E", "A", "F", "FC", "C", "CC", "CF") if btag != "two" else [x for x in ("V", "E", "A", "F", "FC", "C", "CC", "CF") if x in f0 and x in f1]
+        for sec in secs:
             if f0.get(sec) != f1.get(sec):
-                add(f"C02/rebuild/{case['build']}/{sec}", f"building again ({case['build']}) changed section {sec}",
+                add(f"C02/rebuild/{btag}/{sec}", f"building again ({btag}) changed section {sec}",
                     f"{str(f0.get(sec))[:150]} -> {str(f1.get(sec))[:150]}")
-    # ---- later behaviour does not depend on the row type
-    if _ctx(case) != "list":
-        ref = _run(case, "list", "raw")
+        if btag == "two" and s["cls"] != CLASSES[int(build[4:])]:
+            add("C02/class/two", "wrapping prepared data in class X gives another class")
+    # ---- ... in particular the mesh the caller still holds reads the same (compared by value, section by section)
+    if btag in ("twice", "reprep", "rewrap", "rewrapinst", "two", "saveload") and r["first_after"] is not None:
+        for sec in ("cls", "V", "E", "A", "F", "FC", "C", "CC", "CF"):
+            if r["first"].get(sec) != r["first_after"].get(sec):
+                add(f"C02/rebuild/{btag}/original-changed/{sec}", f"building again ({btag}) changed section {sec} of the mesh built first (still held by the caller)",
+                    f"{str(r['first'].get(sec))[:150]} -> {str(r['first_after'].get(sec))[:150]}")
+    # ---- later behaviour does not depend on the row type / numeric representation
+    plain = dict(case, rep={"idx": "py", "vert": "f64", "order": "C", "ro": False, "alias": False, "api": False})
+    if _ctx(case) != "list" or case.get("rep", plain["rep"]) != plain["rep"]:
+        ref = _run(plain, "list", "raw")
         if ref["err"] is None:
+            what = _ctx(case) + "+" + _rep(case, "idx", "py") + "+" + _rep(case, "vert", "f64")
             if case["vdim"] == 3 and _fmt(ref["final"]) != _fmt(s):
-                add(f"C02/rowtype/{_ctx(case)}/containers", "containers differ from the list-built mesh", compare(case, _fmt(ref["final"]), _fmt(s)))
+                add(f"C02/rowtype/{_ctx(case)}/containers" + ("" if _rep(case, "idx", "py") == "py" and _rep(case, "vert", "f64") == "f64" else "/rep"),
+                    "containers differ from the mesh built from lists of python ints / floats", what + ": " + _first_diff(_fmt(ref["final"]), _fmt(s)))
             b0, b1 = _battery(ref["mesh"]), _battery(r["mesh"])
             for qn in b0:
                 if b0[qn] != b1.get(qn):     # only the first differing query: later ones may differ because of half-filled caches
                     add(f"C02/rowtype/{_ctx(case)}/{s['cls']}/{qn}", f"{qn} behaves differently on a mesh built from {_ctx(case)} rows than from lists",
-                        f"list: {str(b0[qn])[:120]} | {_ctx(case)}: {str(b1.get(qn))[:120]}")
+                        f"{what} | list: {str(b0[qn])[:120]} | {_ctx(case)}: {str(b1.get(qn))[:120]}")
                     break
     return out
 
@@ -702,7 +963,7 @@ def nontrivial(case, obs):
 
 def classify(case, obs):
     nV = len(case["V"])
-    ks = ["kind:" + case["kind"].split("-")[0], "rows:" + _ctx(case), "build:" + case["build"], "how:" + case["how"],
+    ks = ["kind:" + case["kind"].split("-")[0].split(":")[0], "rows:" + _ctx(case), "build:" + case["build"], "how:" + case["how"],
           f"cfg:ce{int(case['ce'])}cf{int(case['cf'])}", "vdim:%d" % case["vdim"]]
     if obs.startswith("err"): ks.append(obs.split(";")[0])
     else: ks.append(obs.split(";")[0])
@@ -712,6 +973,15 @@ def classify(case, obs):
     for a in case["EA"]:
         ks.append("attr:" + ("dense" if a["dense"] else "sparse") + ("+default" if a["dflt"] is not None else "") + ("+filtered" if inv else ""))
     if case["C"] and case["F"]: ks.append("faces:declared-with-cells")
+    ks += ["rep:idx:" + _rep(case, "idx", "py"), "rep:vert:" + _rep(case, "vert", "f64")]
+    if case["via"] == "arrays":
+        ks.append("arr:" + _rep(case, "order", "C") + ("+readonly" if _rep(case, "ro", False) else ""))
+        if not case["V"]: ks.append("arr:empty")
+    if _rep(case, "alias", False): ks.append("rows:shared-objects")
+    if _api_entry(case, case["ctype"], case["via"]): ks.append("entry:public-api")
+    if any(a["name"] == "hard_edges" for a in case["EA"]): ks.append("attr:caller-hard_edges")
+    if case["build"] == "append":
+        ks.append("append:" + "".join(t for t in "VEFC" if case["app"][t]) + ("+cfg-changed" if (case["cfg2"]["ce"], case["cfg2"]["cf"]) != (case["ce"], case["cf"]) else ""))
     ks.append("size:" + ("0" if not (case["F"] or case["C"]) else "<=8" if len(case["F"]) + len(case["C"]) <= 8 else "<=40" if len(case["F"]) + len(case["C"]) <= 40 else ">40"))
     return ks
 
@@ -734,6 +1004,18 @@ def shrink(case, still):
     for k, v in (("build", "once"), ("how", "inst:N"), ("ce", True), ("cf", True)):
         if cur[k] != v: attempt(dict(cur, **{k: v}))
     if cur["via"] in ("arrays", "file"): attempt(dict(cur, via="raw"))
+    if cur.get("rep"):
+        attempt({k: v for k, v in cur.items() if k != "rep"})
+        for name, plainv in (("idx", "py"), ("vert", "f64"), ("order", "C"), ("ro", False), ("alias", False), ("api", False)):
+            if cur.get("rep") and cur["rep"].get(name, plainv) != plainv:
+                attempt(dict(cur, rep=dict(cur["rep"], **{name: plainv})))
+    if cur["build"] == "append":
+        attempt(dict(cur, cfg2={"ce": cur["ce"], "cf": cur["cf"]}))
+        for fld in ("C", "F", "E"):
+            i = 0
+            while i < len(cur["app"][fld]):
+                app = dict(cur["app"]); app[fld] = app[fld][:i] + app[fld][i + 1:]
+                if not attempt(dict(cur, app=app)): i += 1
     for fld in ("EA", "C", "F", "E"):
         i = 0
         while i < len(cur[fld]):
@@ -753,7 +1035,7 @@ def shrink(case, still):
     # drop unused trailing vertices
     used = [x for fld in ("E", "F", "C") for r in cur[fld] for x in r]
     m = max([x for x in used if x >= 0] + [-1]) + 1
-    if m < len(cur["V"]): attempt(dict(cur, V=cur["V"][:max(m, 0)]))
+    if m < len(cur["V"]) and cur["build"] != "append": attempt(dict(cur, V=cur["V"][:max(m, 0)]))
     return cur
 
 
